@@ -422,6 +422,38 @@ func documents(c *fw.Ctx) {
 			}
 		}
 	}
+	// sequences of \u escapes: halves of surrogate pairs in every order, next to ordinary escapes
+	escs := []string{`\ud800`, `\udc00`, `\ud83d`, `\ude00`, `\u0041`, `\n`, `a`}
+	c.Family("D:escape-sequences", fmt.Sprintf("strings of <= 3 (thorough 4) items over %d escapes (high and low surrogates, BMP, simple, plain) as a string, a key and an array element", len(escs)))
+	maxEsc := 3
+	if c.Thorough() {
+		maxEsc = 4
+	}
+	var erec func(prefix string, n int)
+	erec = func(prefix string, n int) {
+		if n > 0 {
+			for form := 0; form < 3; form++ {
+				if !c.Next() {
+					continue
+				}
+				switch form {
+				case 0:
+					st.doc([]byte(`"` + prefix + `"`))
+				case 1:
+					st.doc([]byte(`{"` + prefix + `":1}`))
+				default:
+					st.doc([]byte(`["x","` + prefix + `"]`))
+				}
+			}
+		}
+		if n == maxEsc {
+			return
+		}
+		for _, e := range escs {
+			erec(prefix+e, n+1)
+		}
+	}
+	erec("", 0)
 	c.Family("D:tokens", fmt.Sprintf("all sequences of <= 3 (thorough 4) tokens of a %d-token alphabet", len(tokens)))
 	maxTok := 3
 	if c.Thorough() {
